@@ -188,3 +188,63 @@ Example C17_wrong_arguments_are_errors :
        collect_prog (NCall (NName "elems") [NInt 5])]
   = [CErr ErrArity; CErr ErrArity; CErr ErrType; CErr ErrConversion; CErr ErrType; CErr ErrType].
 Proof. vm_compute. reflexivity. Qed.
+
+(* ---- the leaf built-ins as the COMPILED code runs them (C01_statement_compiled: the code of nm(e) and
+        g = nm(e) realises bop_sem / read_sem in every position) ---- *)
+Require Import Calc.ExprSem Calc.ExprSession Calc.StmtSem.
+
+(* toa returns exactly the text write appends to the output *)
+Theorem C17_compiled_toa_is_what_write_prints : forall W x,
+  exists s, snd (bop_sem BToa W x) = Ok (VStr s) /\ w_out (fst (bop_sem BWrite W x)) = s :: w_out W /\
+            fst (bop_sem BToa W x) = W /\ snd (bop_sem BWrite W x) = Ok VNil.
+Proof. intros W x. exists (to_string fmt_float x). repeat split. Qed.
+Print Assumptions C17_compiled_toa_is_what_write_prints.
+
+(* aton(toa(n)) = n for every 64-bit integer *)
+Theorem C17_compiled_aton_toa_int : forall W W' z s,
+  in_int64 z = true -> snd (bop_sem BToa W (VInt z)) = Ok (VStr s) -> snd (bop_sem BAton W' (VStr s)) = Ok (VInt z).
+Proof.
+  intros W W' z s Hz H. cbn [bop_sem snd] in *. injection H as <-.
+  cbn [aton_res to_string]. rewrite (atoi_itoa z Hz). reflexivity.
+Qed.
+Print Assumptions C17_compiled_aton_toa_int.
+
+(* aton of a non-string is a type error; of a string that is neither an integer nor a float, a conversion error *)
+Theorem C17_compiled_aton_errors : forall W x,
+  match x with
+  | VStr s => match atoi s, parse_float s with
+              | Some i, _ => snd (bop_sem BAton W x) = Ok (VInt i)
+              | None, PFOk f => snd (bop_sem BAton W x) = Ok (VFloat f)
+              | None, _ => snd (bop_sem BAton W x) = Fail ErrConversion
+              end
+  | _ => snd (bop_sem BAton W x) = Fail ErrType
+  end.
+Proof.
+  intros W x. destruct x; try reflexivity. cbn [bop_sem snd aton_res].
+  destruct (atoi s); [reflexivity|]. destruct (parse_float s); reflexivity.
+Qed.
+Print Assumptions C17_compiled_aton_errors.
+
+(* successive read() calls return successive lines of the input, none lost, and a read error at its end *)
+Fixpoint read_times (k : nat) (W : world) : list (res value) * world :=
+  match k with
+  | O => ([], W)
+  | S k' => let (W1, r) := read_sem W in let (rs, W2) := read_times k' W1 in (r :: rs, W2)
+  end.
+
+Theorem C17_compiled_reads_successive_lines : forall ls W,
+  w_in W = ls ->
+  fst (read_times (List.length ls) W) = map (fun l => Ok (VStr l)) ls /\
+  w_in (snd (read_times (List.length ls) W)) = [] /\
+  snd (read_sem (snd (read_times (List.length ls) W))) = Fail ErrRead.
+Proof.
+  induction ls as [|l ls IH]; intros W Hin.
+  - cbn [List.length read_times fst snd map]. unfold read_sem. rewrite Hin. cbn [snd]. repeat split; try exact Hin.
+  - set (W1 := {| w_glob := w_glob W; w_out := w_out W; w_in := ls; w_next := w_next W |}).
+    assert (E : read_sem W = (W1, Ok (VStr l))) by (unfold read_sem; rewrite Hin; reflexivity).
+    cbn [List.length read_times]. rewrite E.
+    specialize (IH W1 eq_refl).
+    destruct (read_times (List.length ls) W1) as [rs W2]. cbn [fst snd] in IH |- *.
+    destruct IH as (E1 & E2 & E3). cbn [map]. rewrite E1. split; [reflexivity|]. split; [exact E2|exact E3].
+Qed.
+Print Assumptions C17_compiled_reads_successive_lines.
